@@ -163,7 +163,7 @@ struct BlakeGenerator {
 	BlakeGenerator(const void* seed, size_t n) {
 		memset(S, 0, 64);
 		if (n > 60) n = 60;
-		memcpy(S, seed, n);
+		if (n) memcpy(S, seed, n);
 		hash512(S, S, 64);
 		pos = 0;
 	}
